@@ -127,6 +127,12 @@ func allScenarios() []*scenario {
 			Why: "every filesystem call of an expiring CompactAll and of a second one over the single resulting table fails in turn"},
 		{Name: "S17-gc-orphan-empty", Init: "orphan-empty", Procs: []procSpec{P(st("clean"), st("close")), P(add("a"), st("clean"))}, Preempt: -1,
 			Why: "Clean and Close on an empty stack next to an unlisted complete table (left by a process killed during the very first Add) ‖ Add; Clean"},
+		{Name: "S14-3", Init: "one", Procs: []procSpec{PNoAuto(add("empty")), PNoAuto(add("a")), PNoAuto(add("b"))}, Preempt: 3,
+			Why: "Add(empty transaction) ‖ Add ‖ Add: the empty transaction's lock handling must not disturb two real writers (at most 3 preemptions)"},
+		{Name: "S22", Init: "four", Procs: []procSpec{PNoAuto(rng(0, 1)), PNoAuto(rng(2, 3), add("e"))}, Preempt: -1,
+			Why: "compaction of the bottom pair ‖ {compaction of the top pair; Add}: the list changes under the first compaction's merge while keeping its length"},
+		{Name: "S23-cancel-all", Init: "cancel2", Procs: []procSpec{PNoAuto(compactAll(), st("read")), P(add("a"), add("b"))}, Preempt: -1,
+			Why: "CompactAll of a stack that cancels out entirely (no table is left) ‖ Add; Add"},
 		{Name: "S16", Init: "three", Procs: []procSpec{PNoAuto(rng(1, 2)), PNoAuto(add("a"))}, Preempt: -1,
 			Why: "partial-range compaction over a tombstone ‖ Add"},
 	}
@@ -172,11 +178,11 @@ func allScenarios() []*scenario {
 }
 
 var quickSets = map[string][]string{
-	"C04": {"S1-empty", "S1-one", "S2", "S5", "S8", "S14", "S9", "S1-one@s256", "S10", "S18-reject", "S19-span", "S3", "S12", "S16", "S2@s256", "S20", "S21", "S15-crash", "S7-close", "S7-clean", "S7-close-partial", "S17-gc-empty", "S6p", "S16c", "S8-3", "S2-high", "S1-skipname", "S1-empty@s256", "S16c@s256", "S19-span-skipname", "F6-fault-stale-retry", "F1-fault-compact-add", "S9-stale", "S7-clean-compact", "E1-faultenum-add", "E2-faultenum-compact", "E3-faultenum-addition", "E4-faultenum-gc", "E5-faultenum-open", "E6-faultenum-expire"},
-	"C05": {"S1-one", "S2", "S3", "S4", "S4b", "S16c", "S20", "S21", "S8-3", "S2-high", "F4-fault-addition", "F5-fault-reader", "S5@s256", "S19-span-skipname", "F6-fault-stale-retry", "S9-stale", "E1-faultenum-add", "E2-faultenum-compact", "E3-faultenum-addition", "E4-faultenum-gc", "E5-faultenum-open", "S7-clean-compact", "S18-reject", "S19-span", "S6p", "S6q-b2", "S7-close-partial", "F1-fault-compact-add", "F2-fault-add-add", "S5", "S7-close", "S7-clean", "S13", "S15-crash", "S16", "E6-faultenum-expire", "S17-gc-orphan-empty"},
-	"C08": {"S1-one", "S2", "S4b", "S5", "S5b", "S8", "S7-clean", "S20", "S21", "S8-3", "F4-fault-addition", "S4b@s256", "F1-fault-compact-add", "F2-fault-add-add", "F3-fault-range-range"},
+	"C04": {"S1-empty", "S1-one", "S2", "S5", "S8", "S14", "S9", "S1-one@s256", "S10", "S18-reject", "S19-span", "S3", "S12", "S16", "S2@s256", "S20", "S21", "S15-crash", "S7-close", "S7-clean", "S7-close-partial", "S17-gc-empty", "S6p", "S16c", "S8-3", "S2-high", "S1-skipname", "S1-empty@s256", "S16c@s256", "S19-span-skipname", "F6-fault-stale-retry", "F1-fault-compact-add", "S9-stale", "S7-clean-compact", "E1-faultenum-add", "E2-faultenum-compact", "E3-faultenum-addition", "E4-faultenum-gc", "E5-faultenum-open", "E6-faultenum-expire", "S22", "S23-cancel-all", "S14-3"},
+	"C05": {"S1-one", "S2", "S3", "S4", "S4b", "S16c", "S20", "S21", "S8-3", "S2-high", "F4-fault-addition", "F5-fault-reader", "S5@s256", "S19-span-skipname", "F6-fault-stale-retry", "S9-stale", "E1-faultenum-add", "E2-faultenum-compact", "E3-faultenum-addition", "E4-faultenum-gc", "E5-faultenum-open", "S7-clean-compact", "S18-reject", "S19-span", "S6p", "S6q-b2", "S7-close-partial", "F1-fault-compact-add", "F2-fault-add-add", "S5", "S7-close", "S7-clean", "S13", "S15-crash", "S16", "E6-faultenum-expire", "S17-gc-orphan-empty", "S22", "S23-cancel-all", "S14-3"},
+	"C08": {"S1-one", "S2", "S4b", "S5", "S5b", "S8", "S7-clean", "S20", "S21", "S8-3", "F4-fault-addition", "S4b@s256", "F1-fault-compact-add", "F2-fault-add-add", "F3-fault-range-range", "S23-cancel-all", "S14", "S22", "S14-3"},
 	"C10": {"S6", "S6p", "S6o", "S6q-b2", "S1-one", "S12", "S6-3", "S6p@s256", "S6r", "S16c", "S16c@s256", "S2-high", "E1-faultenum-add", "E2-faultenum-compact", "E3-faultenum-addition", "E4-faultenum-gc", "E5-faultenum-open", "E6-faultenum-expire"},
-	"C16": {"S1-empty", "S1-one", "S2", "S4", "S4b", "S16c", "S20", "S21", "S8-3", "S2-high", "S1-skipname", "F6-fault-stale-retry", "S9-stale", "E1-faultenum-add", "E2-faultenum-compact", "E3-faultenum-addition", "E4-faultenum-gc", "E5-faultenum-open", "F4-fault-addition", "F5-fault-reader", "S2@s256", "S18-reject", "S7-close-partial", "F1-fault-compact-add", "F2-fault-add-add", "S5", "S7-close", "S7-clean", "S7-clean-compact", "S8", "S10", "S17-gc-empty", "E6-faultenum-expire", "S17-gc-orphan-empty"},
+	"C16": {"S1-empty", "S1-one", "S2", "S4", "S4b", "S16c", "S20", "S21", "S8-3", "S2-high", "S1-skipname", "F6-fault-stale-retry", "S9-stale", "E1-faultenum-add", "E2-faultenum-compact", "E3-faultenum-addition", "E4-faultenum-gc", "E5-faultenum-open", "F4-fault-addition", "F5-fault-reader", "S2@s256", "S18-reject", "S7-close-partial", "F1-fault-compact-add", "F2-fault-add-add", "S5", "S7-close", "S7-clean", "S7-clean-compact", "S8", "S10", "S17-gc-empty", "E6-faultenum-expire", "S17-gc-orphan-empty", "S23-cancel-all", "S14", "S14-3"},
 }
 
 func catalogue(prop, tier string) []*scenario {
